@@ -361,7 +361,8 @@ def run(tier):
             for a in assignments(n, n <= nfull):
                 items.append((s, a))
     t = core.Tally()
-    core.run_pool([(MOD, "job", {"items": c}) for c in core.chunks(items[::-1], core.NPROC * 8)], 0, into=t)
+    core.run_pool([(MOD, "job", {"items": c}) for c in core.chunks(items[::-1], core.NPROC * 8)] +
+                  [(MOD, "job", {"items": c}) for c in core.chunks(items, core.NPROC * 3 + 1)], 0, into=t)   # second pass, other order
     core.run_pool([(MOD, "job", {"items": c}) for c in core.chunks(items[:60], core.NPROC)], 1, into=t)
     cov = {
         "states": t.c["states"], "transitions": t.c["evaluations"], "traces_validated_against_impl": t.c["evaluations"],
